@@ -161,6 +161,8 @@ def run(check):
         import_mix_part(check)
     if not check.violations:
         overlap_part(check)
+    if not check.violations:
+        generic_names_part(check)
     check.assumptions += ["a schedule is abstracted to an arrival order of per-file results plus hash iteration orders; real races inside ignore/crossbeam are realised only through the collector hook and repeated runs",
                           "the walker delivers every visible *.rs file exactly once (ignore crate, external)"]
 
@@ -253,4 +255,41 @@ def overlap_part(check):
                             case={"lang": lang, "multi_file": multi, "files": {f["rel"]: render_file(f["file"]) for f in files},
                                   "directories": [os.path.relpath(d, sc.dir) for d in dirs], "env_a": e1, "env_b": e2},
                             impl={"a": o1, "b": o2}, failing_input=True)
+            return
+
+
+def generic_names_part(check):
+    """several generic items with *different* type-parameter names, spread over two files: back ends that collect the parameter
+    names of a whole run in a hash set (Python: `X = TypeVar("X")` lines) must still write them in a fixed order; repeated
+    processes realise different hash seeds"""
+    rng = check.rng
+    ts = [m_path("typeshare")]
+    pool = ["A", "B", "K", "V", "W", "Item", "Meta", "Elem", "Lhs", "Rhs"]
+    for t in range(6 if check.thorough else 3):
+        lang = ["python", "python", "typescript", "swift", "kotlin", "go"][t % 6]
+        names = rng.sample(pool, 7)
+        shapes = [names[:2], names[2:3], names[3:6], names[6:7]]
+        files = []
+        for k, ps in enumerate(shapes):
+            item = {"kind": "struct", "attrs": list(ts), "ident": "Gen%d" % k, "generics": [("ty", p) for p in ps],
+                    "fields": ("named", [field([], "f%d" % i, t_path(p) if i % 2 == 0 else t_path("Vec", [t_path(p)])) for i, p in enumerate(ps)])}
+            files.append(dict(rel="src/g%d.rs" % (k % 2), file={"attrs": [], "items": [item]}))
+        merged = {}
+        for f in files:
+            merged.setdefault(f["rel"], {"attrs": [], "items": []})["items"] += f["file"]["items"]
+        with Scratch() as sc:
+            for rel, f in merged.items():
+                sc.write("ws/" + rel, render_file(f))
+            seen = {}
+            for k in range(16 if check.thorough else 10):
+                r, outs = run_once(sc, lang, False, {})
+                check.saw(("generic-names", t, k), nontrivial=True)
+                check.count("generic-parameter-names-%s" % lang)
+                seen.setdefault(digest(outs) + "|%s" % r["rc"], (k, outs))
+        if len(seen) > 1:
+            (k1, o1), (k2, o2) = list(seen.values())[:2]
+            fn = next(iter(o1))
+            check.violation("%s output differs between two runs of the same binary over the same files (process %d vs %d): %s" % (
+                lang, k1, k2, l2.text_diff(o1.get(fn, ""), o2.get(fn, ""))),
+                case={"lang": lang, "files": {rel: render_file(f) for rel, f in merged.items()}}, impl={"a": o1, "b": o2}, failing_input=True)
             return
